@@ -7,6 +7,7 @@ property's own oracle on the implementation traces + corpus replay.  See DESIGN.
 from __future__ import annotations
 
 import json
+import os
 import random
 import time
 
@@ -91,6 +92,9 @@ def oracle_on_ops(kind, ops, oracle):
     except Failure as f:
         return str(f)
     return None
+
+
+WORKERS, WORKER, share = common.WORKERS, common.WORKER, common.share
 
 
 class HandlerCheck:
@@ -219,6 +223,7 @@ class HandlerCheck:
         })
         if extra:
             v.coverage.update(extra)
+        v.coverage["signature_hashes"] = sorted(self.signatures)[:200000] if WORKERS > 1 else None
         return v.finish()
 
 
